@@ -34,6 +34,25 @@ class XTfy:
         return item
 
 
+_TAGFRAG = {}
+
+
+def tagfrag_class(H):
+    """A tagifiable object that is itself a Tag (a wrapper-less "fragment" component): tagify() returns a TagList."""
+    if H not in _TAGFRAG:
+        class TagFrag(H.Tag):
+            _verif_tfy = True
+
+            def __init__(self, content):
+                super().__init__("frag")
+                self.content, self.mode = content, "listT"
+
+            def tagify(self):
+                return self.content.tagify()
+        _TAGFRAG[H] = TagFrag
+    return _TAGFRAG[H]
+
+
 def build(tr, H, expanded=False):
     """Returns a list of real children (lists are how spliced expansions are returned)."""
     f = tr["f"]
@@ -59,6 +78,8 @@ def build(tr, H, expanded=False):
         return [H.TagList(*kids)]
     if f == "F":
         if not expanded:
+            if tr["mode"] == "listT":
+                return [tagfrag_class(H)(H.TagList(*kids))]
             return [XTfy(tr["mode"], H.TagList(*kids), H)]
         if tr["mode"] == "tag":
             return [H.Tag("x", *kids, _add_ws=False)]
@@ -129,7 +150,10 @@ class Proj:
         if n in seen:
             return n
         seen.add(n)
-        if isinstance(o, H.Tag):
+        if getattr(o, "_verif_tfy", False):
+            k = self.list_obj(o.content, seen)
+            self.heap[n - 1] = self.obj("tfy", o.mode, k=k)
+        elif isinstance(o, H.Tag):
             k = self.list_obj(o.children, seen)
             a = self.attrs_obj(o.attrs, seen)
             self.heap[n - 1] = self.obj("tag", o.name, o.add_ws, a, k)
@@ -172,7 +196,9 @@ def objects_of(root, kind, H):
     out = []
 
     def walk(o):
-        if isinstance(o, H.Tag):
+        if getattr(o, "_verif_tfy", False):
+            walk(o.content)
+        elif isinstance(o, H.Tag):
             if kind == "tag":
                 out.append(o)
             if kind == "list":
@@ -186,10 +212,10 @@ def objects_of(root, kind, H):
                 out.append(o)
             for c in o:
                 walk(c)
-        elif isinstance(o, XTfy):
+        elif isinstance(o, XTfy) or getattr(o, "_verif_tfy", False):
             # the one-item content of a str/HTML/dependency-valued tagifiable is not a mutation target
             # (its tagify() returns that single item: more or fewer items would be a malformed test object)
-            if o.mode in ("list", "tag"):
+            if o.mode in ("list", "tag", "listT"):
                 walk(o.content)
         elif isinstance(o, H.HTMLDocument):
             walk([v for v in vars(o).values() if isinstance(v, H.TagList)][0])
@@ -327,9 +353,12 @@ def run_history(tree, hist, H, seed):
 
 
 def _tfys(o, H):
+    """un-expanded objects that are NOT also self-rendering (a Tag subclass renders itself: the error clause exempts it)"""
     if isinstance(o, XTfy):
         yield o
         return
+    if getattr(o, "_verif_tfy", False):
+        return          # renders itself (it is a Tag); what it would expand to is not part of the markup yet
     if isinstance(o, H.Tag):
         for c in o.children:
             yield from _tfys(c, H)
@@ -401,7 +430,7 @@ def rand_tree(rnd, maxnodes, with_tfy=True, depth=0, counter=None, root=True):
             break
         kids.append(rand_tree(rnd, maxnodes, with_tfy, depth + 1, counter, False))
     if kind == "F":
-        mode = rnd.choice(["list", "list", "tag", "str", "html", "dep"])
+        mode = rnd.choice(["list", "list", "listT", "tag", "str", "html", "dep"])
         if mode == "str":
             kids = [{"f": "S", "v": "w"}]
         elif mode == "html":
@@ -434,6 +463,14 @@ class _Base(Prop):
 
     def execute(self, g):
         import htmltools as H
+        if g["kind"] == "jsx":
+            from . import jsxprop
+            recs = jsxprop.C20().execute({"kind": "conv", "tree": g["tree"], "salt": g.get("salt", 0)})
+            recs = [r for r in recs if r.get("k") == "hist"]
+            for r in recs:
+                r["gen"] = g
+                r.pop("_module", None)
+            return recs
         if g["kind"] == "hist":
             rec = run_history(norm_tree(g["tree"]), g["hist"], H, g.get("seed", 0))
         elif g["kind"] == "expand":
@@ -598,6 +635,11 @@ class C08(_Base):
         for _ in range(400 if tier == "quick" else 8000):
             a, b = variants(rnd, eq_tree(rnd))
             gens.append({"kind": "eq", "a": a, "b": b})
+        # JSX components are tagifiable too: their tagify() result must not share metadata nodes with them
+        from . import jsxprop
+        j = jsxprop.C20()
+        for n in range(150 if tier == "quick" else 3000):
+            gens.append({"kind": "jsx", "tree": j.rnode(rnd, 1, "C"), "salt": n})
         return gens
 
 
